@@ -113,6 +113,44 @@ class Evaluator:
                                  defs=["-D__cplusplus=201703L"])
         return r, p
 
+    def parse_ok(self, r):
+        return r.rc == 0 and not r.died() and re.search(r"(?m)\berror\b", r.err) is None
+
+    def first_rejected(self, tu, keep, keep_env, text, lm, d, r):
+        """interrogate rejected the TU rendered as (text, lm) in directory d (result r).  -> (tag, message) naming
+        the first offending line; diagnostics the parser places at the end of the file (or on no line of ours) are
+        localised by a binary search for the shortest failing prefix of the declaration list."""
+        errs = _err_lines(r.err, "t.h")
+        last_line = max(lm) if lm else 0
+        if errs:
+            ln = min(errs)
+            tag = lm.get(ln)
+            eof = "end of file" in errs[ln] or ln > last_line
+            if tag and not eof:
+                return tag, errs[ln][:100]
+        msg = (errs[min(errs)] if errs else r.err.strip().split("\n")[0])[:100]
+        order = [lm[ln][1] for ln in sorted(lm) if lm[ln][0] == "decl"]
+        if not order:
+            return None, msg
+        lo, hi = 0, len(order)          # invariant: prefix lo passes (or is empty), prefix hi fails
+
+        def fails(k):
+            sub = set(order[:k])
+            dd = self.newdir()
+            t2, _ = dg.render_tu(tu, sub, keep_env)
+            open(os.path.join(dd, "t.h"), "w").write(t2)
+            rr, _p = self.run_interrogate(dd, "o")
+            return not self.parse_ok(rr)
+        if fails(0):
+            return None, msg            # the environment / host skeleton itself
+        while hi - lo > 1:
+            mid = (lo + hi) // 2
+            if fails(mid):
+                hi = mid
+            else:
+                lo = mid
+        return ("decl", order[hi - 1]), msg
+
     def evaluate(self, tu, ids=None, max_parser_reruns=12, want_types=True):
         """-> (status, info).  status[id] one of
              ("gxx-rejected", msg) ("parser-rejected", msg) ("not-exported",) ("ok",) ("ok-scope-relative",)
@@ -129,22 +167,18 @@ class Evaluator:
             if r.timed_out:
                 info["tool_problem"] = "interrogate timed out"
                 return status, info
-            bad = r.rc != 0 or r.died() or re.search(r"(?m)\berror\b", r.err) is not None
-            if not bad:
+            if self.parse_ok(r):
                 break
             if r.died():
                 info["tool_problem"] = "interrogate died: " + r.how()
                 return status, info
-            errs = _err_lines(r.err, "t.h")
             reruns += 1
-            if not errs or reruns > max_parser_reruns:
+            if reruns > max_parser_reruns:
                 for i in keep:
-                    status.setdefault(i, ("unjudged", "parser error not attributable / too many"))
+                    status.setdefault(i, ("unjudged", "too many parser errors in one TU"))
                 info["tool_problem"] = "parse errors: " + r.err[-300:]
                 return status, info
-            ln = min(errs)
-            tag = lm.get(ln)
-            msg = errs[ln][:100]
+            tag, msg = self.first_rejected(tu, keep, keep_env, text, lm, d, r)
             if tag and tag[0] == "decl":
                 status[tag[1]] = ("parser-rejected", msg)
                 keep.discard(tag[1])
@@ -291,12 +325,9 @@ def minimise_rejected(ev, tu, dcl, nid, max_rounds=12):
             if not keep:
                 continue
             r, _p = ev.run_interrogate(d, "o")
-            if r.rc == 0 and not re.search(r"(?m)\berror\b", r.err):
+            if ev.parse_ok(r):
                 continue
-            errs = _err_lines(r.err, "t.h")
-            if not errs:
-                continue
-            tag = lm.get(min(errs))
+            tag, _msg = ev.first_rejected(tu2, keep, keep_env, text, lm, d, r)
             if tag and tag[0] == "decl":
                 c = [x for x in group if x["id"] == tag[1]][0]
                 if hit is None or dg.decl_size(c) < dg.decl_size(hit):
@@ -352,14 +383,29 @@ def minimise(ev, tu, pending, rejected_cap=6):
 # Root-cause classes for minimal witnesses (every remaining element of a 1-minimal witness is necessary for the
 # failure, so a witness that needs the trigger of a class below is explained by it).  Anything else keeps its full
 # structure signature as key.
-def cause_of(cat, sig):
+NAMED = r"(?:elab-\w+ )?(?:nested-)?(?:class|enum|enum-class|typedef|alias|fwd-class)/"
+PLAIN_NAMED = re.compile(r"^(?:method:|static-method:)?(?:ret|param|var|member|typedef|alias)=(?:elab-(?:struct|class) )?"
+                         r"[\w-]+/([\w-]+)$")
+
+
+def cause_of(cat, sig, printed=""):
+    m = PLAIN_NAMED.match(sig)
     if cat == "rejected-valid":
         if re.search(r"alias=(const |volatile |const volatile )", sig):
             return "alias-declaration-starting-with-cv-qualifier"
         if "elab-enum" in sig:
             return "elaborated-enum-specifier"
-        if re.search(r"ret=(ptr|ref|rref|memptr)\((array|fn)\(", sig) and not re.search(r"(array|fn)\((int|builtin)\b", sig):
-            return "named-return-type-before-parenthesised-declarator"
+        if "^::" in sig:
+            return "template-argument-list-starting-with-scope-operator"
+        if "^volatile" in sig:
+            return "template-argument-starting-with-volatile"
+        if "alias=" in sig and re.search(r"(ptr|ref|rref|memptr)\((array|fn)\(", sig):
+            return "alias-declaration-with-parenthesised-abstract-declarator"
+        if re.search(r"(ptr|ref|rref|memptr)\((array|fn)\(", sig) and \
+                not re.search(r"(array|fn)\((const |volatile )*(int|builtin|void)\b", sig):
+            return "named-type-before-parenthesised-declarator"
+        if m:
+            return "type-name-not-recognised,via=" + m.group(1)
         return None
     if "volatile" in sig:
         return "volatile-qualifier-dropped"
@@ -367,6 +413,26 @@ def cause_of(cat, sig):
         return "pointer-to-data-member-printed-as-pointer"
     if re.search(r"(ptr|ref|rref)\(array\(", sig):
         return "pointer-or-reference-to-array-loses-parentheses"
+    if "unknown" in printed and "tmpl" in sig:
+        return "template-argument-printed-as-unknown"
+    if "tmpl-member-" in sig:
+        return "member-of-template-instantiation-printed-without-arguments"
+    if re.search(r"(const|volatile) ptr\(fn\(", sig):
+        return "cv-qualified-pointer-to-function-misprinted"
+    if "memptr(fn(" in sig:
+        return "pointer-to-member-function-class-name-not-fully-qualified"
+    if re.search(r"elab-(class|struct) ", sig):
+        return "elaborated-class-specifier-taken-as-new-nested-class"
+    if "tmplalias/" in sig:
+        return "alias-template-printed-unsubstituted"
+    if re.search(r"tmpl\w*/[\w-]+<[^>]*(elab-|fn\()", sig):
+        return "template-argument-printed-as-unknown"
+    if re.search(r"fn\(const ", sig):
+        return "const-return-type-of-function-pointer-dropped"
+    if re.search(r"^method:ret=(ptr|ref|rref)\(fn\(.*cvq=const", sig):
+        return "const-method-returning-function-pointer-misplaces-const"
+    if m:
+        return "name-resolved-to-wrong-entity,via=" + m.group(1)
     return None
 
 
@@ -417,6 +483,11 @@ def run_case(ctx, case):
     if not res.sample:
         text, _ = dg.render_tu(tu)
         res.sample = {"tu_excerpt": text[-1400:]}
+    # environment lines one of the two front-ends rejected are left out of every further TU
+    bad_env = {k[4:] for k, s in st.items() if isinstance(k, str) and k.startswith("env:")}
+    if bad_env:
+        tu = dict(tu, env=[e for e in tu["env"] if e["id"] not in bad_env],
+                  late_env=[e for e in tu.get("late_env", []) if e["id"] not in bad_env])
     if pending:
         # identical declarations (up to names) need one reduction only
         uniq, rep = {}, {}
@@ -435,7 +506,9 @@ def run_case(ctx, case):
         for i, m in sorted(mins.items()):
             cat = chosen[i][1]
             sig = dg.decl_signature(m)
-            cause = cause_of(cat, sig)
+            if i in last:
+                st[i] = last[i]
+            cause = cause_of(cat, sig, str(st[i][1]) if len(st[i]) > 1 else "")
             head = "rejected-valid" if cat == "rejected-valid" else KEYCAT[m["kind"]]
             key = head + ":" + (("cause=" + cause) if cause else sig)
             if key in seen:
